@@ -381,6 +381,35 @@ def c_registered(ctx, case):
         p.unregister_constant_class(regcls)
 
 
+@check("C02.reentrant")
+def c_reentrant(ctx, case):
+    """A function in the environment is itself defined by an expression: while the outer
+    evaluation runs, it evaluates ANOTHER expression (sharing sub-expressions with the outer
+    one) in ANOTHER environment through the same entry point.  The outer evaluation continues
+    with its own environment and its own results."""
+    outer, inner, inner_x = case
+    for name, fn in variants(True):
+        def f(v, fn=fn):
+            # f(v) := inner evaluated at x = inner_x + v, y = v  (re-enters the entry point)
+            return fn(inner, G.base_env(inner_x + v, v, 2))
+
+        def f_ref(v):
+            return refsem.ev(inner, G.base_env(inner_x + v, v, 2))
+        for xv, yv in ((3, 4), (F(1, 2), -2), (-5, 7)):
+            env, env_ref = G.base_env(xv, yv, 1), G.base_env(xv, yv, 1)
+            env["f"], env_ref["f"] = f, f_ref
+            want = refsem.outcome(lambda: refsem.ev(outer, env_ref), UNK)
+            got = refsem.outcome(lambda: fn(outer, env), UNK)
+            ctx.case(None)
+            ctx.count("reentrant_evaluations")
+            if not _strict_same(got, want):
+                ctx.fail("C02.reentrant", case, f"reentrant:{name}",
+                         f"variant={name}: {G.src(outer)} at x={xv}, y={yv}, where f(v) evaluates "
+                         f"{G.src(inner)} at x={inner_x}+v, y=v through the same entry point: got "
+                         f"{short(got)}, expected {short(want)}")
+                return
+
+
 def inject_fault(rng, e, kind):
     """Replace one leaf occurrence by a faulty node; returns new tree or None."""
     leaves = []
@@ -563,6 +592,20 @@ def workload(ctx):
                     ctx.count("kind_pairs")
                     ctx.run("C02.kinds", (e, env))
         ctx.set_exhaustive("(kind of number, kind of number) over 19 kinds")
+        fv = p.Variable("f")
+        sh1, sh2 = p.Product((X, X)), p.CommonSubexpression(p.Sum((X, Y)), "s")
+        for i, (outer, inner) in enumerate([
+                (p.Sum((p.Call(fv, (Y,)), sh1, p.Product((-1, X)))), p.Sum((sh1, X))),
+                (p.Sum((sh1, p.Call(fv, (Y,)), sh1)), p.Product((sh1, Y))),
+                (p.Sum((sh2, p.Call(fv, (X,)), sh2)), p.Product((sh2, 2))),
+                (p.Product((p.Call(fv, (sh2,)), sh2, X)), p.Sum((sh2, sh1))),
+                (p.Sum((X, p.Call(fv, (p.Call(fv, (Y,)),)), X, Y)), p.Sum((X, Y, 1))),
+                (p.If(p.Comparison(p.Call(fv, (1,)), ">", X), sh1, sh2), p.Sum((sh1, sh2))),
+                (p.Sum((p.Call(fv, (2,)), p.Power(X, 2), p.Quotient(Y, X))), p.Sum((p.Power(X, 2), p.Quotient(Y, X))))]):
+            for inner_x in (10, -1):
+                if ctx.mine("reentrant"):
+                    ctx.case(("reentrant", i, inner_x), True, n=0)
+                    ctx.run("C02.reentrant", (outer, inner, inner_x))
         for which in ("exact", "abstract"):
             for shape in range(8):
                 if ctx.mine("registered"):
@@ -652,6 +695,7 @@ def workload(ctx):
         for k, v in tr.handlers().items():
             ctx.count("handler:" + k, v)
     ctx.floor("registered_constant_evaluations", 150)
+    ctx.floor("reentrant_evaluations", 150)
     ctx.floor("typed_twin_cases", 100)
     ctx.floor("tuple_index_subscripts", 300)
     ctx.floor("variant:plain", 1000)
